@@ -148,7 +148,7 @@ Section Irrel.
     Forall2 (ROut ent_rel) (spec_hist c1 h1 l1) (spec_hist c2 h2 l2).
   Proof.
     intros F HP. unfold spec_hist.
-    apply (sim_run_hist (rstore c1) (rstore c2) c1 c2 ES rst_rel ent_rel); auto.
+    apply (sim_run_hist (rstore c1) (rstore c2) c1 c2 ES rst_rel ent_rel false); auto.
     - apply irr_empty.
     - apply irr_origin.
     - intros z1 z2 b H. cbn. destruct b; split; cbn; auto. constructor.
@@ -161,6 +161,7 @@ Section Irrel.
     - intros; apply irr_exists; auto.
     - intros; apply irr_node; auto.
     - intros s1 s2 [_ H]. exact H.
+    - discriminate.
   Qed.
 
   (* spec_rel ES histories are valid on both sides *)
@@ -171,7 +172,7 @@ Section Irrel.
     assert (forall a b, Forall2 (arg_rel ES) a b -> Forall arg_valid a) as Kl
       by (induction 1; constructor; eauto).
     assert (forall o1 o2, op_rel ES o1 o2 -> op_valid o1) as Ko.
-    { intros o1 o2 H. destruct H; cbn; eauto. destruct a, b; cbn in *; eauto; contradiction. }
+    { intros o1 o2 H. destruct H; cbn; eauto; try discriminate. destruct a, b; cbn in *; eauto; contradiction. }
     induction 1 as [|x y h1 h2 (_ & _ & _ & H) F IH]; constructor; auto.
     unfold spec_valid. clear -H Ko. induction H; constructor; eauto.
   Qed.
@@ -183,7 +184,7 @@ Section Irrel.
     assert (forall a b, Forall2 (arg_rel ES) a b -> Forall arg_valid b) as Kl
       by (induction 1; constructor; eauto).
     assert (forall o1 o2, op_rel ES o1 o2 -> op_valid o2) as Ko.
-    { intros o1 o2 H. destruct H; cbn; eauto. destruct a, b; cbn in *; eauto; contradiction. }
+    { intros o1 o2 H. destruct H; cbn; eauto; try discriminate. destruct a, b; cbn in *; eauto; contradiction. }
     induction 1 as [|x y h1 h2 (_ & _ & _ & H) F IH]; constructor; auto.
     unfold spec_valid. clear -H Ko. induction H; constructor; eauto.
   Qed.
